@@ -286,7 +286,7 @@ def w_struct(rng, k, depth):
                 return Aw(ids[0])
             if not ids:
                 return rng.choice([0, 1, 'x', None, 2.5])
-        n = max(rng.choice([1, 2, 3, 4]), 1 if depth > 1 else len(ids))
+        n = min(5, max(rng.choice([1, 2, 3, 4]), 1 if depth > 1 else len(ids)))
         parts = [[] for _ in range(n)]
         for i in ids:
             parts[rng.randrange(n)].append(i)
@@ -299,7 +299,7 @@ def w_struct(rng, k, depth):
             return kids
         if r < 0.7:
             return tuple(kids)
-        return {'k%d' % j: x for j, x in enumerate(kids)}
+        return dict(zip(rng.sample(['k%d' % j for j in range(len(kids))], len(kids)), kids))   # insertion order is not sorted order
     return build(ids, depth, True)
 
 
